@@ -80,6 +80,17 @@ def check(ctx):
             if not ok1:
                 res = m.run(w1)
                 viol("R-C10.1", f"lower:{K}:{pn}", f"well-formed {K} {a.word(w1)!r} is not returned as one {K} token (model answer: {res})", construct=a.word(w1))
+        if lenient is not LM.EMPTY:
+            # the documented extension is a promise too: every spelling of the documented lenient language is one token of this class
+            # ('\\00'-style decimal escape runs make a multi-character constant and a one-character constant overlap: either class will do there)
+            target = lex if K != "INT_CONST_CHAR" else R.union_dfa([lex, T.dfa(lambda o: o["kind"] == "regex" and o["label"] == "CHAR_CONST" and o["full"])])
+            w3 = R.find_in_a_not_b(ld, target)
+            ok3 = w3 is None
+            ctx.oblige("R-C10.1", f"Lenient_{K} subset of Lex_{K}", ok3,
+                       sample={"rule": "R-C10.1", "class": K, "obligation": "every spelling of the documented extension is lexed as one token of this class", "verdict": "holds" if ok3 else f"fails for {a.word(w3)!r}"})
+            if not ok3:
+                viol("R-C10.1", f"lower-ext:{K}", f"{a.word(w3)!r} belongs to the documented extension of {K} (binary integers, u8/u/U prefixes, '$' in identifiers, lenient escapes for Windows paths) but is not returned as one {K} token "
+                     f"(model answer: {m.run(w3)})", construct=a.word(w3))
         w2 = R.find_in_a_not_b(lex, R.union_dfa([sd, ld]))
         ok2 = w2 is None
         ctx.oblige("R-C10.1", f"Lex_{K} subset of Strict+Lenient", ok2,
